@@ -655,6 +655,9 @@ func vecElemAt(eff *Effects, vec ssa.Value, k int64, at ssa.Instruction) (vals [
 					mod, ext := eff.calleesOpen(x)
 					for _, cal := range mod {
 						if w := eff.Mutates(cal, j); w != nil {
+							if writesOnlyOtherElems(eff, cal, j, k, 0) {
+								continue // the callee assigns other elements of the vector only
+							}
 							// Apply restores loc: accepted for the data package's own Apply (documented save/restore)
 							unknown = "vector passed to " + FuncKey(cal) + " which writes it"
 							return
@@ -680,6 +683,74 @@ func vecElemAt(eff *Effects, vec ssa.Value, k int64, at ssa.Instruction) (vals [
 	}
 	scan(at.Block(), instrIndex(at)-1)
 	return
+}
+
+// writesOnlyOtherElems: every write f makes to its j-th parameter (a []int) is a store at a constant index other
+// than k, and wherever f passes the vector on, the receiver does not write it (or, recursively, writes only other
+// elements).
+func writesOnlyOtherElems(eff *Effects, f *ssa.Function, j int, k int64, depth int) bool {
+	if f == nil || f.Blocks == nil || j >= len(f.Params) || depth > 3 {
+		return false
+	}
+	prm := f.Params[j]
+	isVec := func(v ssa.Value) bool {
+		if v == ssa.Value(prm) {
+			return true
+		}
+		o := origin1local(v)
+		return o != nil && o == ssa.Value(prm)
+	}
+	ok := true
+	eachInstr(f, func(_ *ssa.BasicBlock, _ int, ins ssa.Instruction) {
+		if !ok {
+			return
+		}
+		switch x := ins.(type) {
+		case *ssa.Store:
+			if ia, isIA := x.Addr.(*ssa.IndexAddr); isIA && isVec(ia.X) {
+				if c, isC := constInt(ia.Index); !isC || c == k {
+					ok = false
+				}
+			}
+			if isVec(x.Val) {
+				ok = false // the vector escapes into memory
+			}
+		case *ssa.Slice:
+			if isVec(x.X) {
+				ok = false // re-sliced: element numbering changes
+			}
+		case *ssa.MakeClosure:
+			for _, b := range x.Bindings {
+				if isVec(b) {
+					ok = false
+				}
+			}
+		case ssa.CallInstruction:
+			c := x.Common()
+			args := c.Args
+			if c.IsInvoke() {
+				args = append([]ssa.Value{c.Value}, c.Args...)
+			}
+			for ai, a := range args {
+				if !isVec(a) {
+					continue
+				}
+				if bi, isB := c.Value.(*ssa.Builtin); isB {
+					if bi.Name() == "copy" && ai == 0 || bi.Name() == "append" {
+						ok = false
+					}
+					continue
+				}
+				mod, _ := eff.calleesOpen(x)
+				for _, cal := range mod {
+					if eff.Mutates(cal, ai) != nil && !writesOnlyOtherElems(eff, cal, ai, k, depth+1) {
+						ok = false
+					}
+				}
+			}
+		}
+	})
+	return ok
 }
 
 // ---------- reachability that tracks boolean phis ----------
